@@ -27,7 +27,7 @@ ASSUMPTIONS = [
 REQUIRED = ['mech:analytic', 'mech:pkpd', 'pop', 'nopop', 'cov', 'doses', 'fixed', 'ids:int', 'ids:str', 'ids:npint',
             'custom_keys', 'explicit_map', 'nan_values', 'nan_times', 'unrelated', 'multi_output',
             'explicit_map:other_order', 'dose_row_with_measurement', 'pop_model_replaced',
-            'controller_reused']
+            'controller_reused', 'unrelated_row_first:default_map_single_output']
 OBS_TIMES_POOL = 6
 
 
@@ -139,7 +139,8 @@ def _spec(draw):
         nan_rows=draw(st.integers(0, 2)),
         no_dur_col=pk and gen.chance(draw, 0.2),
         order_seed=draw(st.integers(0, 10 ** 6)),
-        pop_first=draw(st.booleans()))
+        pop_first=draw(st.booleans()),
+        unrelated_first=draw(st.booleans()))
     if pop is not None and ref.pop_n_cov(pop) > 0 and deco['explicit_map']:
         # set_population_model after set_data resets the data when the default covariate names are
         # not observables of the frame (documented: "Please set the data again")
@@ -173,6 +174,10 @@ def classify(spec):
         labs.append('nan_times')
     if d['unrelated'] or d['extra_col'] or d['nan_rows']:
         labs.append('unrelated')
+    if d['unrelated'] and d.get('unrelated_first'):
+        labs.append('unrelated_row_first')
+        if not d['explicit_map'] and len(spec['ems']) == 1:
+            labs.append('unrelated_row_first:default_map_single_output')
     if len(spec['ems']) > 1:
         labs.append('multi_output')
     if replaced_pop(spec):
@@ -286,6 +291,12 @@ def build_frame(spec, deco):
     # interleave, keeping the order inside each block; the first row stays the first row of
     # individual 0 so that "order of first appearance" is the order of the spec
     rng = np.random.RandomState(deco['order_seed'])
+    if deco.get('unrelated_first') and deco['unrelated']:
+        # the frame starts with a row of an observable that no output is mapped to
+        for k, b in enumerate(blocks):
+            if b and str(b[0][K['id']]) == str(ids[0]) and str(b[0][K['obs']]).startswith('unrelated'):
+                blocks.insert(0, blocks.pop(k))
+                break
     first = None
     for b in blocks:
         if b:
@@ -336,6 +347,12 @@ def build_controller(spec, df, K):
         outputs = None
     ems = [ref.em_class(k)() for k in spec['ems']]
     ctrl = chi.ProblemModellingController(M, ems, outputs=outputs)
+    # the user goes on using THEIR model object: a second controller over the outputs in reverse order is built from it
+    # (and the object's outputs stay changed)
+    if (outputs is not None and len(outputs) >= 2) or (outputs is None and m['n_out'] >= 2):
+        rev = list(reversed(outputs if outputs is not None else M.outputs()))
+        chi.ProblemModellingController(M, [ref.em_class(k)() for k in reversed(spec['ems'])], outputs=rev)
+        M.set_outputs(rev)
     pm = None
     if spec['pop'] is not None:
         pm = ref.build_pop(spec['pop'], None, None if not popgen.has(spec['pop'], 'hetero') else spec['n_ids'])
